@@ -300,32 +300,43 @@ static void check_hello_attrs(World &w, const TxRec &tx, uint32_t gf) {
     if (const Tlv *x = h.find(0x0F)) {
         size_t exp = std::min((size_t)32, a.hostname.size());
         if (gf & G_HOSTNAME) { if (!x->val.empty()) w.violate("C04", "hostname", "hostname present although the getter failed"); }
-        else if (x->val.size() != exp || memcmp(x->val.data(), a.hostname.data(), exp) != 0)
+        else if (x->val.size() != exp || (exp && memcmp(x->val.data(), a.hostname.data(), exp) != 0))
             w.violate("C04", "hostname", fmt("machine name has %zu bytes '%s', expected the first %zu bytes of the %zu-byte name", x->val.size(), hex(x->val.data(), x->val.size()).c_str(), exp, a.hostname.size()));
         if (a.hostname.size() > 32) w.note("c04_hostname_clamped");
     } else w.violate("C04", "tlv-missing", "machine name property missing");
     if (const Tlv *x = need(0x14, 4)) {
         if (be32(x->val.data()) != 0xE0000000u) w.violate("C04", "qos", fmt("QoS characteristics 0x%08x, expected 0xE0000000", be32(x->val.data())));
     }
-    bool wifi_on = a.wifi && !(gf & G_WIFIMODE);
     static const uint8_t WT[] = {0x04, 0x05, 0x06, 0x09, 0x0D};
-    if (!wifi_on) {
-        for (uint8_t t : WT) if (h.find(t)) { w.violate("C04", "wifi-gating", fmt("wireless property 0x%02x on an interface that reports no Wi-Fi mode", t)); break; }
+    if (!a.wifi) {
+        for (uint8_t t : WT) if (h.find(t)) { w.violate("C04", "wifi-gating", fmt("wireless property 0x%02x on a wired interface", t)); break; }
     } else {
-        w.note("c04_wifi_hello");
-        if (const Tlv *x = need(0x04, 1)) { if (x->val[0] != a.wifimode) w.violate("C04", "wifi-mode", fmt("Wi-Fi mode %u, expected %u", x->val[0], a.wifimode)); }
+        // a wireless interface whose mode cannot be read: the wireless properties may be left out, but whatever is sent must be right
+        bool must = !(gf & G_WIFIMODE);
+        w.note(must ? "c04_wifi_hello" : "c04_wifi_mode_unreadable");
+        auto opt = [&](uint8_t t, size_t len) -> const Tlv * {
+            const Tlv *x = h.find(t);
+            if (!x) { if (must) w.violate("C04", "tlv-missing", fmt("wireless property 0x%02x missing from the Hello of a Wi-Fi interface", t)); return nullptr; }
+            if (x->val.size() != len) { w.violate("C04", "tlv-length", fmt("property 0x%02x has length %zu, expected %zu", t, x->val.size(), len)); return nullptr; }
+            return x;
+        };
+        if (const Tlv *x = h.find(0x04)) {
+            if (gf & G_WIFIMODE) w.violate("C04", "wifi-mode", "Wi-Fi mode property present although the mode cannot be read");
+            else if (x->val.size() != 1 || x->val[0] != a.wifimode) w.violate("C04", "wifi-mode", fmt("Wi-Fi mode %u, expected %u", x->val.empty() ? 0 : x->val[0], a.wifimode));
+        } else if (must) w.violate("C04", "tlv-missing", "Wi-Fi mode property missing from the Hello of a Wi-Fi interface");
         const Tlv *b = h.find(0x05);
         if (gf & G_BSSID) { if (b && !is_zero(b->val)) w.violate("C04", "bssid", "BSSID present although the getter failed"); }
-        else if (!b || b->val.size() != 6 || memcmp(b->val.data(), a.bssid, 6) != 0) w.violate("C04", "bssid", "BSSID missing or wrong");
+        else if (b ? (b->val.size() != 6 || memcmp(b->val.data(), a.bssid, 6) != 0) : must) w.violate("C04", "bssid", "BSSID missing or wrong");
         const Tlv *s = h.find(0x06);
         size_t exp = std::min((size_t)32, a.ssid.size());
         if (gf & G_SSID) { if (s && !s->val.empty()) w.violate("C04", "ssid", "SSID present although the getter failed"); }
-        else if (!s || s->val.size() != exp || memcmp(s->val.data(), a.ssid.data(), exp) != 0) w.violate("C04", "ssid", fmt("SSID missing or wrong (got %zu bytes, expected %zu)", s ? s->val.size() : 0, exp));
-        if (const Tlv *x = need(0x09, 2)) {
+        else if (s ? (s->val.size() != exp || (exp && memcmp(s->val.data(), a.ssid.data(), exp) != 0)) : must) w.violate("C04", "ssid", fmt("SSID missing or wrong (got %zu bytes, expected %zu)", s ? s->val.size() : 0, exp));
+        if (a.ssid.size() > 32) w.note("c04_ssid_clamped");
+        if (const Tlv *x = opt(0x09, 2)) {
             uint16_t v = be16(x->val.data());
             if (v != a.rate && !((gf & G_RATE) && v == 0)) w.violate("C04", "wifi-rate", fmt("max rate %u, expected %u", v, a.rate));
         }
-        if (const Tlv *x = need(0x0D, 4)) {
+        if (const Tlv *x = opt(0x0D, 4)) {
             int32_t v = (int32_t)be32(x->val.data());
             if (v != (int32_t)a.rssi && !((gf & G_RSSI) && v == 0)) w.violate("C04", "wifi-rssi", fmt("RSSI %d, expected %d", v, a.rssi));
             if (a.rssi < 0) w.note("c04_negative_rssi");
@@ -373,8 +384,13 @@ struct MonC05 : Monitor {
 // ---------------------------------------------------------------- C06: Emit execution
 struct MonC06 : Monitor {
     ArbTracker arb;
+    std::map<int, std::map<Mac, std::set<Mac>>> via; // node -> mapper real address -> Ethernet sources it was seen behind since the last Reset
     const char *prop() const override { return "C06"; }
     void on_delivery(World &w, Delivery &d) override {
+        if (d.ran && disc_tos(d.buf[OFF_TOS])) {
+            if (d.buf[OFF_OP] == W_RESET) via[d.node].clear();
+            else via[d.node][mac_at(d.buf + OFF_RSRC)].insert(mac_at(d.buf + OFF_ESRC));
+        }
         if (d.ran && d.buf[OFF_TOS] == 0 && d.buf[OFF_OP] == W_EMIT) {
             const Node &n = *w.nodes[d.node];
             uint32_t gf = eff_getfail(w, d);
@@ -401,7 +417,8 @@ struct MonC06 : Monitor {
                 if (d.internal_fault && core.size() > expect) w.violate("C06", "emit-frame-count", "more frames than descriptors + ACK");
                 uint64_t pause_sum = 0;
                 bool macfail = (gf & G_MAC) != 0;
-                for (size_t i = 0; i < core.size() && i < expect; i++) {
+                // under an injected platform fault single frames may be missing anywhere; what is sent is then judged by C18 against the fault-free run
+                for (size_t i = 0; !d.internal_fault && i < core.size() && i < expect; i++) {
                     const Bytes &f = core[i]->data;
                     if (f.size() < 32) continue;
                     if (core[i]->refused) w.note("c06_refused_send");
@@ -423,7 +440,7 @@ struct MonC06 : Monitor {
                         Mac mes = mac_at(d.buf + OFF_ESRC);
                         if (f[OFF_OP] != W_ACK) bad = fmt("frame after the last descriptor has opcode %u, expected ACK", f[OFF_OP]);
                         else if (mac_at(&f[OFF_RDST]) != src) bad = "ACK real destination is not the mapper";
-                        else if (ed != mes && ed != src && !(mes != src && ed == MAC_BCAST)) bad = "ACK Ethernet destination is neither the mapper nor its apparent address";
+                        else if (ed != mes && ed != src && !via[d.node][src].count(ed) && !(mes != src && ed == MAC_BCAST)) bad = "ACK Ethernet destination is neither the mapper nor an address it was seen behind";
                         else if (mac_at(&f[OFF_ESRC]) != n.attr.mac && !macfail) bad = "ACK Ethernet source is not the responder";
                         else if (mac_at(&f[OFF_RSRC]) != n.attr.mac && !macfail) bad = "ACK real source is not the responder";
                         else if (be16(&f[OFF_SEQ]) != seq) bad = fmt("ACK sequence number %u, Emit had %u", be16(&f[OFF_SEQ]), seq);
@@ -517,6 +534,11 @@ struct MonC08 : Monitor {
     std::map<int, IconCache> cache;
     std::map<std::pair<int, int>, Bytes> asm_;
     const char *prop() const override { return "C08"; }
+    void clear_asm(int node, bool icon_too) {
+        for (auto it = asm_.begin(); it != asm_.end();) if (it->first.first == node && (icon_too || it->first.second != 0x0E)) it = asm_.erase(it); else ++it;
+    }
+    // a platform change in the middle of a fetch legitimately mixes old and new bytes (except for the cached icon)
+    void on_op(World &, int, const Op &op) override { if (op.kind == OP_ATTR) clear_asm((int)op.a[0], !cache[(int)op.a[0]].have); }
     static Bytes hwid_bytes(const Attr &a) {
         Bytes b(64, 0);
         size_t n = std::min((size_t)64, a.hwid.size());
@@ -529,7 +551,7 @@ struct MonC08 : Monitor {
     void on_delivery(World &w, Delivery &d) override {
         if (!d.ran) return;
         uint8_t tos = d.buf[OFF_TOS], op = d.buf[OFF_OP];
-        if (tos == 0 && op == W_RESET) { cache[d.node].have = false; return; }
+        if (tos == 0 && op == W_RESET) { cache[d.node].have = false; clear_asm(d.node, true); return; }
         if (!disc_tos(tos) || op != W_QLT) return;
         const Node &n = *w.nodes[d.node];
         uint32_t gf = eff_getfail(w, d);
@@ -576,7 +598,7 @@ struct MonC08 : Monitor {
             else {
                 if (nbytes == 0) e = fmt("offset %u inside a %zu-byte property returned no bytes", off, size);
                 else if (off + nbytes > size) e = fmt("payload of %zu bytes at offset %u runs past the %zu-byte property", nbytes, off, size);
-                else if (memcmp(&f[34], &data[off], nbytes) != 0) e = fmt("payload bytes differ from the property at offset %u (size %zu)", off, size);
+                else if (memcmp(f.data() + 34, data.data() + off, nbytes) != 0) e = fmt("payload bytes differ from the property at offset %u (size %zu)", off, size);
                 else if (more != (off + nbytes < size)) e = fmt("'more' is %d but offset %u + %zu bytes vs size %zu", more, off, nbytes, size);
             }
             if (e.empty()) { okany = true; used = &data; break; }
@@ -742,12 +764,13 @@ struct MonC13 : Monitor {
         uint64_t need = min_interval(a.band_Ni);
         if (a.band_hello_ts < t + need) w.violate("C13", "interval-too-short", fmt("next Hello scheduled %lld ms after the block end, load formula for count %u requires >= %llu", (long long)(a.band_hello_ts - t), a.band_Ni, (unsigned long long)need));
         uint64_t interval = a.band_hello_ts - t;
-        if (last.have && last.Ni0 == b.band_Ni && last.begun0 == (begun_eff ? 1 : 0)) {
+        bool formula_applies = r > 0 && begun_eff; // monotonicity is a consequence of the formula: compare only blocks it governs
+        if (last.have && formula_applies && last.Ni0 == b.band_Ni) {
             w.note("c13_monotone_pair");
             if ((last.r <= r && last.interval > interval) || (last.r >= r && last.interval < interval))
                 w.violate("C13", "not-monotone", fmt("from the same state, r=%u gives interval %llu ms but r=%u gives %llu ms", last.r, (unsigned long long)last.interval, r, (unsigned long long)interval));
         }
-        last = {true, b.band_Ni, begun_eff ? 1 : 0, r, interval};
+        if (formula_applies) last = {true, b.band_Ni, 1, r, interval}; else last.have = false;
     }
     void on_tick(World &w, TickRec &t) override {
         if (!t.before.have_band) return;
@@ -806,6 +829,7 @@ struct MonC14 : Monitor {
         auto allowed = step(b.mapping_state, in, el, b.mapping_timeout, false);
         int ec = el == 0 ? 0 : (b.mapping_state && el + 1 == (uint64_t)b.mapping_timeout[b.mapping_state]) ? 1 : (b.mapping_state && el == (uint64_t)b.mapping_timeout[b.mapping_state]) ? 2 : (b.mapping_state && el == (uint64_t)b.mapping_timeout[b.mapping_state] + 1) ? 3 : 4;
         w.cell(14, ((uint64_t)b.mapping_state << 16) | ((uint64_t)(in + 128) << 4) | (uint64_t)ec);
+        w.note("c14_api_step");
         if (!allowed.count(a.mapping_state))
             w.violate("C14", "transition", fmt("state %d, input %d, %llu s since last input (timeout %d): went to %d", b.mapping_state, in, (unsigned long long)el, b.mapping_timeout[b.mapping_state], a.mapping_state));
     }
@@ -873,6 +897,7 @@ struct MonC15 : Monitor {
         int to = b.session_timeout[b.session_state];
         int ec = el == 0 ? 0 : (el + 1 == (uint64_t)to) ? 1 : (el == (uint64_t)to) ? 2 : (el == (uint64_t)to + 1) ? 3 : 4;
         w.cell(15, ((uint64_t)b.session_state << 8) | ((uint64_t)e << 4) | (uint64_t)ec);
+        w.note("c15_api_step");
         auto allowed = step(b.session_state, e, el, b.session_timeout, false);
         if (!allowed.count(a.session_state))
             w.violate("C15", "transition", fmt("state %d, session event %d, %llu s since last input (timeout %d): went to %d", b.session_state, e, (unsigned long long)el, to, a.session_state));
